@@ -188,10 +188,10 @@ func genTMatcherFor(t *rapid.T, v string, sep rune, label string) tmatcher {
 	case "glob":
 		if want {
 			// ** crosses separators; quote meta characters of the literal part
-			return tmatcher{"glob", rapid.SampledFrom([]string{"**", glob.QuoteMeta(v), "{" + glob.QuoteMeta(v) + ",zzz}"}).Draw(t, label+".glob")}
+			return tmatcher{"glob", rapid.SampledFrom([]string{"**", "*", "?*", glob.QuoteMeta(v), "{" + glob.QuoteMeta(v) + ",zzz}"}).Draw(t, label+".glob")}
 		}
 
-		return tmatcher{"glob", rapid.SampledFrom([]string{"zzz*", "*", glob.QuoteMeta(v) + "?"}).Draw(t, label+".glob")}
+		return tmatcher{"glob", rapid.SampledFrom([]string{"zzz*", "*", glob.QuoteMeta(v) + "?", "*.example.com", "example.*"}).Draw(t, label+".glob")}
 	default:
 		if want {
 			return tmatcher{"regex", rapid.SampledFrom([]string{"^" + regexp.QuoteMeta(v) + "$", ".", "^.*$"}).Draw(t, label+".re")}
@@ -205,7 +205,7 @@ type request struct {
 	Method, Scheme, Host, RawPath string
 }
 
-var hostPool = []string{"example.com", "api.example.com", "a.b.example.com", "other.org", "example.com:8443"}
+var hostPool = []string{"example.com", "api.example.com", "a.b.example.com", "other.org", "example.com:8443", "localhost"}
 
 func genCase(t *rapid.T) ([]ruleSpec, request) {
 	st := vkit.ExprStyle{UnnamedSingle: rapid.IntRange(0, 5).Draw(t, "unnamed") == 0, FreeName: rapid.SampledFrom([]string{"rest", "rest", "*"}).Draw(t, "freeName")}
@@ -298,7 +298,9 @@ func genCase(t *rapid.T) ([]ruleSpec, request) {
 			case "exact":
 				hm = tmatcher{"exact", hv}
 			case "glob":
-				hm = tmatcher{"glob", rapid.SampledFrom([]string{"*.example.com", "**.example.com", "example.*", "*.org", "{api,www}.example.com"}).Draw(t, "hostGlob")}
+				hm = tmatcher{"glob", rapid.SampledFrom([]string{"*.example.com", "**.example.com", "example.*", "*.org", "{api,www}.example.com",
+					// texts which are used as path_params globs as well: the separator is "." here and "/" there
+					"*", "**", "zzz*", "?*", glob.QuoteMeta(hv), glob.QuoteMeta(hv) + "?", "{" + glob.QuoteMeta(hv) + ",zzz}"}).Draw(t, "hostGlob")}
 			default:
 				hm = tmatcher{"regex", rapid.SampledFrom([]string{`^.*\.example\.com$`, `^example\.com$`, `org$`, `^api\.`}).Draw(t, "hostRe")}
 			}
